@@ -351,4 +351,24 @@ PROPS = {
         'trusted': ["H-RT (net/http Shutdown, signals, timers)"],
         'assumptions': ["H-RT"],
     },
+
+    'C09': {
+        'proofs': ['Ww.Proofs.C09'],
+        'gen_sections': ['Facts'],
+        'drivers': [{'name': 'c09'}, {'name': 'cook'}, {'name': 'hist'}],
+        'reasons': ['C09.'],
+        'class_fields': _merge(HIST_CLASS, {'crypt': ['size'], 'tamper09': ['what', 'variant', 'ep', 'status'], 'cookiedec': ['value'], 'nonces': ['dups'], 'outscan': ['sink', 'kind', 'found'],
+                                            'setcookie': ['class', 'clear'], 'logscan': ['kind']}),
+        'nontrivial': _merge(HIST_NT, {'logscan': lambda f: False, 'setcookie': lambda f: False, 'jar': lambda f: False, 'retrychain': lambda f: False, 'retryreset': lambda f: False, 'ratelimit': lambda f: False}),
+        'rule': "c09 driver: real Crypter on plaintext sizes 0..64 KiB (1 MiB thorough): every single-bit flip (sampled above 20 kbit), every truncation, extension, other key, plaintext-as-ciphertext; 20 000 encryptions for nonce repeats; "
+                "malformed cookie values; through the router: the session cookie truncated / extended / bit-flipped / replaced by a login or logout cookie's ciphertext / sealed under another key, and the store value replaced by another "
+                "session's value / flipped / truncated / plaintext JSON, on 4 endpoints. Output monitor (all drivers): every Set-Cookie value and store value is searched for the tokens, verifiers, keys and client credentials the harness knows.",
+        'level_text': "PARTIAL (relative to H-AEAD / H-RND). Proved on the symbolic model: a ciphertext opens only under the key it was made with, modified bytes open under no key; session cookie and store value expose nothing to an observer "
+                      "without keys; a store value is readable only with the data key inside that user's own cookie, a cookie only with the deployment key, another cookie type's ciphertext is no ticket; whenever cookie or store value does not "
+                      "open, no token reaches the upstream and the session endpoints answer 401 (never 5xx); framing round trip and minimum length; distinct ciphertexts from an injective nonce source. Bit-flip / truncation / swap runs are tests.",
+        'level_note': "Trusted: XChaCha20-Poly1305 and crypto/rand (assumptions); Lean kernel; the symbolic abstraction (Blob = sealed term | junk). Known finding F7: legacy-cookie=true puts the raw access token into the selvbetjening-idtoken cookie.",
+        'technique': 'Lean 4 proofs over a symbolic (Dolev-Yao) AEAD model joined to the handler model + exhaustive tamper runs and an output monitor on the real code',
+        'trusted': ["H-AEAD", "H-RND"],
+        'assumptions': ["H-AEAD", "H-RND"],
+    },
 }
